@@ -1,5 +1,7 @@
 package pptx
 
+import "strings"
+
 // Slide represents a parsed slide.
 type Slide struct {
 	Index   int         // 0-indexed slide number
@@ -189,14 +191,7 @@ func escapeMarkdown(s string) string {
 }
 
 func replaceAll(s, old, new string) string {
-	result := ""
-	for i := 0; i < len(s); i++ {
-		if i <= len(s)-len(old) && s[i:i+len(old)] == old {
-			result += new
-			i += len(old) - 1
-		} else {
-			result += string(s[i])
-		}
-	}
-	return result
+	// (a byte-wise copy would turn every byte of a multi-byte character into a
+	// character of its own and corrupt all non-ASCII text)
+	return strings.ReplaceAll(s, old, new)
 }
